@@ -53,6 +53,7 @@ var (
 	cEmptyPort0    = simrt.RegisterCounter("probe_port0_without_commands")
 	cResend        = simrt.RegisterCounter("probe_application_payload_resent_under_next_counter")
 	cCandidate     = simrt.RegisterCounter("probe_second_frame_counter_candidate_on_the_same_frame")
+	cPiecesRefused = simrt.RegisterCounter("sender_refused_application_bytes_in_two_items_asked_again_with_one")
 	cLegacyRefused = simrt.RegisterCounter("probe_frame_with_legacy_value_refused_not_judged")
 	cText          = simrt.RegisterCounter("probe_frames_received_as_base64_text")
 
@@ -593,6 +594,13 @@ func sendUplink(w *world, id int, r *sim.Rand, live bool) {
 	noteFrame(f, &d.sess)
 	lib := f.ToLib()
 	wire, stage, err := pipe.SealOrder(&d.sess, lib, tx, true) // the order of the statement: FRMPayload, FOpts, MIC, marshal
+	if err != nil && f.InPieces() {
+		// a sender that wants the application bytes in one item is within the
+		// statement (which frame VALUES carry a valid frame is left open)
+		simrt.Count(cPiecesRefused)
+		lib = f.ToLibWhole()
+		wire, stage, err = pipe.SealOrder(&d.sess, lib, tx, true)
+	}
 	if err != nil && !f.AllInSpec() {
 		simrt.Count(cLegacyRefused)
 		d.fcntUp++
@@ -674,6 +682,10 @@ func sendDownlink(w *world, id int, r *sim.Rand, ack bool, live bool) {
 	tx := pipe.TxParams{ConfFCnt: n.lastConfUp}
 	noteFrame(f, &n.sess)
 	wire, stage, err := pipe.SealOrder(&n.sess, f.ToLib(), tx, true)
+	if err != nil && f.InPieces() {
+		simrt.Count(cPiecesRefused)
+		wire, stage, err = pipe.SealOrder(&n.sess, f.ToLibWhole(), tx, true)
+	}
 	if err != nil && !f.AllInSpec() {
 		simrt.Count(cLegacyRefused)
 		return
